@@ -196,3 +196,229 @@ Proof.
     (* should_continue = false: the result is None, but the parent is taken first *)
     destruct (parent_some_st _ _ _ V1 Hc Nr) as [p P]. rewrite P. cbn. auto.
 Qed.
+
+(* ================================================================== open_new_blocks: the invariant of the handlers *)
+(* lmc = the last matched container, cur0 = self.current (not moved by open_new_blocks) *)
+Definition J (o : bopts) (lmc cur0 : nat) (st : pstate) (c : nat) : Prop :=
+  W o st /\ has st c /\ (ispara st c = true -> c = lmc) /\ ps_current st = cur0 /\ (cur0 = lmc \/ has st cur0).
+
+Lemma J_eqtree o lmc cur0 st st' c : eqtree st st' -> J o lmc cur0 st c -> J o lmc cur0 st' c.
+Proof.
+  intros T (V & H & P & C & K). pose proof (eqtree_same _ _ T) as S. destruct T as (T1 & T2 & T3).
+  split; [eapply W_eqtree; [|exact V]; repeat split; assumption|].
+  split; [apply (same_has _ _ _ S); exact H|]. split; [rewrite (sm_para _ _ S); exact P|].
+  split; [congruence|]. destruct K as [K|K]; [now left | right; apply (same_has _ _ _ S); exact K].
+Qed.
+
+Lemma J_same o lmc cur0 st st' c : same st st' -> W o st' -> J o lmc cur0 st c -> J o lmc cur0 st' c.
+Proof.
+  intros S V' (V & H & P & C & K).
+  split; [exact V'|]. split; [apply (same_has _ _ _ S); exact H|]. split; [rewrite (sm_para _ _ S); exact P|].
+  split; [rewrite (sm_cur _ _ S); exact C|]. destruct K as [K|K]; [now left | right; apply (same_has _ _ _ S); exact K].
+Qed.
+
+Lemma J_grow o lmc cur0 st c v col post id st' :
+  add_child_gen o st c v col post [] = Ok (id, st') -> J o lmc cur0 st c -> W o st' ->
+  (forall i, bi_id (post i) = bi_id i) -> (forall i l k, is_pv (bi_val (post (new_info i v l k))) = false) ->
+  J o lmc cur0 st' id.
+Proof.
+  intros A (V & H & P & C & K) V' Hp Hv.
+  destruct (add_child_gen_post _ _ _ _ _ _ _ _ A V V' H Hp) as [(G1 & G2 & G3 & _) IP].
+  split; [exact V'|]. split; [exact G1|]. split; [rewrite IP, Hv; discriminate|]. split; [congruence|].
+  destruct K as [K|K]; [now left|]. destruct (G3 _ K) as [[E Pc]|Hx]; [left; rewrite E; now apply P | now right].
+Qed.
+
+Lemma add_child_W o st c v col id st' :
+  add_child o st c v col = Ok (id, st') -> W o st -> bvok o v = true -> vrowcell v = false -> vplain v = true -> W o st'.
+Proof.
+  intros A (T & S & R) B1 B2 B3. split; [eapply add_child_TI; eassumption|].
+  split; [eapply add_child_valid; eassumption | eapply add_child_R0; eassumption].
+Qed.
+
+Definition HJ (o : bopts) (lmc cur0 : nat) (r : bool * nat * pstate) : Prop := J o lmc cur0 (snd r) (snd (fst r)).
+
+(* the binds of a handler *)
+Lemma sb_pure {A B} (r : res A) (K : A -> res B) (Q : B -> Prop) : nb r -> (forall a, safe Q (K a)) -> safe Q (bind r K).
+Proof. intros H HK. apply sbind; [exact H | intros a _; apply HK]. Qed.
+
+Lemma sb_assoc {A B C} (r : res A) (f : A -> res B) (K : B -> res C) (Q : C -> Prop) :
+  safe Q (bind r (fun a => bind (f a) K)) -> safe Q (bind (bind r f) K).
+Proof. destruct r; exact (fun H => H). Qed.
+
+Lemma sb_eq {B} o lmc cur0 st c (r : res pstate) (K : pstate -> res B) (Q : B -> Prop) :
+  J o lmc cur0 st c -> nb r -> (forall s1, r = Ok s1 -> eqtree st s1) ->
+  (forall s1, J o lmc cur0 s1 c -> safe Q (K s1)) -> safe Q (bind r K).
+Proof. intros Jc N T HK. apply sbind; [exact N|]. intros s1 E. apply HK. eapply J_eqtree; [eapply T; exact E | exact Jc]. Qed.
+
+Lemma sb_get {B} st x (K : bnode -> res B) (Q : B -> Prop) :
+  has st x -> (forall n, get st x = Ok n -> safe Q (K n)) -> safe Q (bind (get st x) K).
+Proof. intros H HK. apply sbind; [now apply nb_get | exact HK]. Qed.
+
+Lemma sb_add_child {B} o lmc cur0 st c v col (K : nat * pstate -> res B) (Q : B -> Prop) :
+  J o lmc cur0 st c -> bvok o v = true -> vrowcell v = false -> vplain v = true -> is_pv v = false ->
+  (forall id s1, J o lmc cur0 s1 id -> safe Q (K (id, s1))) -> safe Q (bind (add_child o st c v col) K).
+Proof.
+  intros Jc B1 B2 B3 B4 HK. pose proof Jc as (V & H & _).
+  apply sbind; [unfold add_child; now apply add_child_gen_nb|]. intros [id s1] E. apply HK.
+  pose proof (add_child_W _ _ _ _ _ _ _ E V B1 B2 B3) as V1.
+  unfold add_child in E. eapply J_grow; [exact E | exact Jc | exact V1 | reflexivity | intros; exact B4].
+Qed.
+
+Lemma modify_info_set_W o st id g st' :
+  modify_info st id g = Ok st' -> (forall i, bi_id (g i) = bi_id i /\ bi_val (g i) = bi_val i) -> W o st -> W o st'.
+Proof.
+  intros M Hg (T & S & R). split; [eapply modify_info_set_TI; [exact M | intro i; destruct (Hg i); auto | exact T]|].
+  split; [eapply modify_info_set_valid; [exact M | intro i; destruct (Hg i) as [_ ->]; reflexivity | exact S]|].
+  eapply modify_info_set_R0; [exact M | intro i; apply Hg | exact R].
+Qed.
+
+Lemma sb_mi {B} o lmc cur0 st c x g (K : pstate -> res B) (Q : B -> Prop) :
+  J o lmc cur0 st c -> has st x -> (forall i, bi_id (g i) = bi_id i /\ bi_val (g i) = bi_val i) ->
+  (forall s1, J o lmc cur0 s1 c -> safe Q (K s1)) -> safe Q (bind (modify_info st x g) K).
+Proof.
+  intros Jc H Hg HK. apply sbind; [now apply nb_modify_info|]. intros s1 E. apply HK.
+  eapply J_same; [eapply modify_info_set_same; eassumption | eapply modify_info_set_W; [exact E | exact Hg | apply Jc] | exact Jc].
+Qed.
+
+Lemma J_has o lmc cur0 st c : J o lmc cur0 st c -> has st c.
+Proof. intros (_ & H & _). exact H. Qed.
+
+Ltac hstep :=
+  match goal with
+  | |- safe _ (Ok _) => cbn [safe fst snd HJ]; eassumption
+  | |- safe _ (not_handled _ _) => unfold not_handled
+  | |- safe _ (Panic _) => vm_compute; reflexivity
+  | |- safe _ (bind (Ok _) _) => cbn [bind]
+  | |- safe _ (bind (bind _ _) _) => apply sb_assoc
+  | |- safe _ (bind (adv _ _ _ _) _) =>
+      eapply sb_eq; [eassumption | auto with nb | intros ? ?; eapply adv_eqtree; eassumption | intros ? ?]
+  | |- safe _ (bind (skip_one_space _ _ _) _) =>
+      eapply sb_eq; [eassumption | auto with nb | intros ? ?; eapply skip_one_space_eqtree; eassumption | intros ? ?]
+  | |- safe _ (bind (list_spaces_loop _ _ _ _) _) =>
+      eapply sb_eq; [eassumption | auto with nb | intros ? ?; eapply list_spaces_loop_eqtree; eassumption | intros ? ?]
+  | |- safe _ (bind (add_child _ _ _ _ _) _) =>
+      eapply sb_add_child; [eassumption | try reflexivity | reflexivity | reflexivity | reflexivity
+                           | intros ? ? ?; cbn beta iota; cbn [fst snd] ]
+  | |- safe _ (bind (get _ _) _) => eapply sb_get; [eapply J_has; eassumption | intros ? ?]
+  | |- safe _ (bind (modify_info _ _ _) _) =>
+      eapply sb_mi; [eassumption | eapply J_has; eassumption | intro; split; reflexivity | intros ? ?]
+  | |- safe _ (bind (if ?b then _ else _) _) => first [ apply sb_pure; [solve [nbgo] | intros] | destruct b eqn:? ]
+  | |- safe _ (bind (match ?x with _ => _ end) _) => first [ apply sb_pure; [solve [nbgo] | intros] | destruct x eqn:? ]
+  | |- safe _ (bind _ _) => apply sb_pure; [solve [nbgo] | intros]
+  | |- safe _ (if ?b then _ else _) => destruct b eqn:?
+  | |- safe _ (match ?x with _ => _ end) => destruct x eqn:?
+  | |- safe _ (let (_, _) := ?x in _) => destruct x eqn:?
+  end.
+Ltac hgo := repeat hstep.
+
+Section Handlers.
+Variables (o : bopts) (lmc cur0 : nat).
+Notation Jx := (J o lmc cur0).
+Notation HJx := (HJ o lmc cur0).
+
+Lemma handle_alert_spec st c line ind : Jx st c -> safe HJx (handle_alert o st c line ind).
+Proof. intro Jc. unfold handle_alert. hgo. Qed.
+
+Lemma handle_mbq_spec st c line ind : Jx st c -> safe HJx (handle_multiline_blockquote o st c line ind).
+Proof. intro Jc. unfold handle_multiline_blockquote, rest_at_fns. hgo. Qed.
+
+Lemma handle_blockquote_spec st c line ind : Jx st c -> safe HJx (handle_blockquote o st c line ind).
+Proof. intro Jc. unfold handle_blockquote. hgo. Qed.
+
+Lemma handle_code_fence_spec st c line ind : Jx st c -> safe HJx (handle_code_fence o st c line ind).
+Proof. intro Jc. unfold handle_code_fence, rest_at_fns. hgo. Qed.
+
+Lemma handle_html_block_spec st c line ind : Jx st c -> safe HJx (handle_html_block o st c line ind).
+Proof. intro Jc. unfold handle_html_block, rest_at_fns. hgo. Qed.
+
+Lemma handle_code_block_spec st c line ind ml : Jx st c -> safe HJx (handle_code_block o st c line ind ml).
+Proof. intro Jc. unfold handle_code_block. hgo. Qed.
+
+Lemma handle_thematic_break_spec st c line ind am : Jx st c -> safe HJx (handle_thematic_break o st c line ind am).
+Proof.
+  intro Jc. unfold handle_thematic_break. hgo.
+Qed.
+
+Lemma handle_footnote_spec st c line ind d : Jx st c -> safe HJx (handle_footnote o st c line ind d).
+Proof.
+  intro Jc. unfold handle_footnote, rest_at_fns.
+  destruct (ind || negb (bo_footnotes o) || negb (Nat.ltb d max_list_depth)) eqn:E; [hgo|].
+  assert (F : bo_footnotes o = true).
+  { destruct (bo_footnotes o); [reflexivity|]. destruct ind; cbn in E; discriminate E. }
+  hgo. cbn [bvok]. exact F.
+Qed.
+
+Lemma handle_description_list_spec st c line ind :
+  bo_description_lists o = false -> Jx st c -> safe HJx (handle_description_list o st c line ind).
+Proof. intros D Jc. unfold handle_description_list. rewrite D. cbn [negb]. rewrite orb_true_r. hgo. Qed.
+
+Lemma handle_list_spec st c line ind d : Jx st c -> safe HJx (handle_list o st c line ind d).
+Proof.
+  intro Jc. unfold handle_list.
+  repeat (match goal with |- safe _ (bind (if _ then _ else Ok (_ , _)) _) => fail 1 | |- _ => hstep end).
+  match goal with |- safe _ (bind (if ?b then _ else _) _) => destruct b eqn:? end.
+  - cbv zeta. apply sb_assoc.
+    match goal with HJ1 : J _ _ _ ?s c |- context [adv (st_cur ?s ?cc) _ _ _] =>
+      pose proof (J_eqtree o lmc cur0 s (st_cur s cc) c (conj eq_refl (conj eq_refl eq_refl)) HJ1) end.
+    match goal with |- safe _ (bind (if ?b then _ else _) _) => destruct b eqn:? end; hgo.
+  - hgo.
+Qed.
+
+Lemma handle_atx_spec st c line ind : Jx st c -> safe HJx (handle_atx_heading o st c line ind).
+Proof.
+  intro Jc. unfold handle_atx_heading, rest_at_fns.
+  destruct ind; [hgo|]. apply sbind; [auto with nb|]. intros rest _.
+  destruct (scan_atx_heading_start rest) as [matched|] eqn:Sc; [|hgo].
+  hstep. hstep.
+  destruct (position_hash rest) as [p|] eqn:Ph; [|hgo].
+  apply sbind; [auto with nb|]. intros level Ch.
+  destruct (Nat.ltb 255 level); [hgo|].
+  pose proof (atx_level_bounds _ _ _ _ Sc Ph Ch) as Lv.
+  match goal with Js : J _ _ _ ?s1 c |- safe _ (bind (add_child_gen _ ?s1 _ _ _ _ _) _) => pose proof Js as (V1 & Hc1 & _); rename Js into J1 end.
+  apply sbind; [now apply add_child_gen_nb|]. intros [id s2] A. cbn [fst snd safe HJ].
+  assert (V2 : W o s2).
+  { destruct V1 as (T1 & S1 & R1). split; [|split].
+    - eapply add_child_gen_TI; [exact A | exact T1 | | reflexivity | reflexivity | reflexivity].
+      intros id0 l0 c0. cbn [set_ioff set_val new_info bi_val bi_id bvok vrowcell map kshape forallb].
+      repeat split. apply andb_true_iff. split; apply N.leb_le; lia.
+    - eapply add_child_gen_valid; [exact A | exact S1 | intros; reflexivity | apply kids_ok_nil].
+    - eapply add_child_gen_R0; eassumption. }
+  eapply J_grow; [exact A | exact J1 | exact V2 | reflexivity | intros; reflexivity].
+Qed.
+
+Lemma J_setext_core st c m' f s1 : Jx st c -> c = lmc -> modify_info (st_refmap st m') c f = Ok s1 ->
+  (forall i, bi_id (f i) = bi_id i) -> forall s2, eqtree s1 s2 -> W o s2 -> Jx s2 c.
+Proof.
+  intros (V & Hc & Pc & Cc & Kc) El M Hf s2 (T1 & T2 & T3) V2.
+  destruct (modify_info_same_cnt _ _ _ _ M Hf) as [Cn Nx]. cbn [ps_root ps_next st_refmap] in Cn, Nx.
+  assert (Cu : ps_current s1 = ps_current st).
+  { unfold modify_info, modify in M. destruct (upd c (on_info f) (ps_root (st_refmap st m'))); [|discriminate M]. now inversion M. }
+  assert (Hh : forall x, has st x -> has s2 x).
+  { intros x Hx. apply has_cnt. rewrite T1, Cn. now apply has_cnt. }
+  split; [exact V2|]. split; [now apply Hh|]. split; [intros _; exact El|]. split; [congruence|].
+  destruct Kc as [Kc|Kc]; [now left | right; now apply Hh].
+Qed.
+
+Lemma handle_setext_nb st c line ind : has st c -> nb (handle_setext_heading o st c line ind).
+Proof. intro H. unfold handle_setext_heading, rest_at_fns. unfold not_handled. nbgo. Qed.
+
+Lemma handle_setext_post st c line ind b c' st' :
+  handle_setext_heading o st c line ind = Ok (b, c', st') -> Jx st c -> Jx st' c'.
+Proof.
+  intros H Jc. pose proof Jc as (V & _ & Pc & _).
+  assert (V' : W o st') by (Wgo V).
+  unfold handle_setext_heading, rest_at_fns in H. mon H; try exact Jc;
+  match goal with G : get st ?cc = Ok ?a, P : negb (is_paragraph ?a) = false |- _ =>
+    assert (El : cc = lmc) by (apply Pc; rewrite (ispara_get _ _ _ G); destruct (is_paragraph a); [reflexivity | discriminate P]) end;
+  match goal with M : modify_info (st_refmap st _) _ _ = Ok ?s1 |- _ =>
+    eapply (J_setext_core _ _ _ _ _ Jc El M);
+      [ intro; repeat match goal with |- context [if ?bb then _ else _] => destruct bb end; reflexivity
+      | first [ eapply adv_eqtree; eassumption | apply eqtree_refl ] | exact V' ] end.
+Qed.
+
+Lemma handle_setext_spec st c line ind : Jx st c -> safe HJx (handle_setext_heading o st c line ind).
+Proof.
+  intro Jc. apply nb_safe; [apply handle_setext_nb; eapply J_has; exact Jc|].
+  intros [[b c'] st'] E. cbn [HJ fst snd]. eapply handle_setext_post; eassumption.
+Qed.
+End Handlers.
